@@ -163,9 +163,35 @@ def canon_impl(o):
     return None
 
 
+def gen_long_chain(rng):
+    """a chain of 30..70 cells evaluated from the top first (deep), then entered lower down (shallow):
+    cells finished deep in one request are met near the surface in the next ones"""
+    n = rng.randint(30, 70)
+    ng = rng.choice([1, 2])
+    guards = [{'cond': None, 'true_assert': rng.random() < 0.5} for _ in range(ng)]
+    cells = []
+    for i in range(n):
+        if i == n - 1:
+            body = ('f', rng.randint(1, 9)) if rng.random() < 0.3 else ('a', ('c', 1), ('c', rng.randint(0, 9)))
+        else:
+            body = ('r', i + 1) if rng.random() < 0.5 else ('a', ('r', i + 1), ('c', rng.randint(0, 3)))
+        cells.append({'owner': rng.randrange(ng), 'body': body})
+    entries = [0] + sorted(rng.sample(range(1, n), 4))
+    roots = []
+    for t in entries:
+        cells.append({'owner': 0, 'body': ('r', t), 'root': True})
+        roots.append(len(cells) - 1)
+    reqs = [(rng.choice('em'), rng.choice([500, 500, n + 2, rng.randint(10, n)]), roots[0])]
+    for _ in range(rng.randint(2, 6)):
+        reqs.append((rng.choice('eem'), rng.choice([500, 500, rng.randint(1, n + 2)]), rng.choice(roots)))
+    return {'cells': cells, 'guards': guards, 'reqs': reqs, 'shape': 'longchain'}
+
+
 def gen_machine(rng, size):
     """a random machine: guards (some failing), cells with small bodies (chains, sharing, cycles,
     failures), roots, and a request sequence with limits around the depths that matter"""
+    if rng.random() < 0.1:
+        return gen_long_chain(rng)
     ng = rng.choice([1, 1, 2, 3])
     guards = []
     for g in range(ng):
